@@ -503,7 +503,83 @@ def _getitem_contract(how):
 
 getitem_cs = [_getitem_contract(h) for h in ("int", "slice", "fslice")]
 
-NEW = [isel_int, isel_slice] + getitem_cs
+
+# ---- reductions over the leading dimension (skipna=False, the default of the repository methods)
+def _p_reduce(kind):
+    def p(mk):
+        sp = spectrum(mk, kind)
+        return _record(mk, ("self",))({"self": sp, "dim": P})
+    return p
+
+
+def _any_missing(sx, n, ix):
+    if sx.nan is None:
+        return False
+    return exists(0, n, lambda p: sx.nan[(p,) + ix], "p")
+
+
+def _reduced(op, which):
+    """variable `which` of the result is the reduction of the operand's variable over the leading dimension, member by
+    member of the remaining (spectral) index: missing iff a contribution is missing (or, for the mean / std, there is none)"""
+    def value(sx, n, ix):
+        tot = Sum(0, n, lambda p: sx.arr[(p,) + ix])
+        if op == "sum":
+            return tot
+        m = tot / n
+        if op == "mean":
+            return m
+        return sqrt(Sum(0, n, lambda p: (sx.arr[(p,) + ix] - m) * (sx.arr[(p,) + ix] - m)) / n)
+
+    def clause(a, r):
+        if not hasattr(r, "_o"):
+            import numpy as np
+            s = a.self
+            fn = {"sum": np.sum, "mean": np.mean, "std": np.std}[op]
+            if which == "layout":
+                return bool(type(r) is type(s) and r.dataset[NAME_E].dims == s.dataset[NAME_E].dims[1:] and set(_native_vars(r)) == set(_native_vars(s))
+                            and _native_eq(r.dataset[NAME_F].values, s.dataset[NAME_F].values))
+            if which == "time":
+                t = s.dataset["time"].values.astype("datetime64[ns]").astype("int64")
+                return bool(abs(int(r.dataset["time"].values.astype("datetime64[ns]").astype("int64")) - t.mean()) <= 1)
+            if which not in s.dataset:
+                return True
+            return bool(np.allclose(r.dataset[which].values, fn(s.dataset[which].values, axis=0), rtol=1e-12, atol=1e-14, equal_nan=True))
+        sp = Spec(a.self)
+        n = sp.np_
+        kind = _kind_of(a)
+        vs, src = r.dataset.vars, a.self.dataset.vars
+        empty_missing = (n <= 0) if op != "sum" else False
+
+        def one(rx, sx, ri, ix):
+            rn = False if rx.nan is None else rx.nan[ri]
+            return And(iff(rn, Or(empty_missing, _any_missing(sx, n, ix))), implies(Not(rn), eq(rx.arr[ri], value(sx, n, ix))))
+        if which == "layout":
+            cs = [_same_class(a, r), set(vs) - {"time"} == _names(kind), r.dataset.coords[NAME_F]._a is a.self.dataset.coords[NAME_F]._a]
+            cs += [vs[v].dims == SDIMS[kind] for v in SPECV[kind]] + [vs[v].dims == () for v in SCALV]
+            return And(*cs)
+        if which == "time":
+            # the reduced dimension's coordinate is replaced by its mean
+            t = a.self.dataset.coords["time"]
+            return implies(n > 0, eq(_time_of(r, ()), Sum(0, n, lambda p: t[p]) / n))
+        if which in SCALV:
+            return one(vs[which], src[which], (), ())
+        if which not in SPECV[kind]:
+            return True
+        return _over_spectral(sp, lambda ix: one(vs[which], src[which], ix, ix))
+    return _structural(clause)
+
+
+def _reduce_contract(op):
+    ens = [("operand_unchanged_result_new", frame(("self",))), ("same_kind_same_variables_spectral_grid_kept_leading_dimension_removed", _reduced(op, "layout")),
+           ("time_is_the_mean_time", _reduced(op, "time"))]
+    ens += [(f"{v}_is_the_{op}_over_the_leading_dimension", _reduced(op, v), {"1d"} if v in SPECV["1d"][1:] else {"1d", "2d"}) for v in SPECV["1d"] + SCALV]
+    return Contract(S + "WaveSpectrum." + op, instances=[(k, _p_reduce(k)) for k in KINDS], requires=[REQ_SIZES], ensures=ens,
+                    native=_native_spec, witness=[_wit(k, dim="time") for k in KINDS])
+
+
+reduce_cs = [_reduce_contract(op) for op in ("mean", "sum", "std")]
+
+NEW = [isel_int, isel_slice] + getitem_cs + reduce_cs
 
 def _bounded_restructure(tier, seed):
     """concatenate/select, flatten pairing, netCDF round trip and random operation sequences with bitwise operand snapshots
